@@ -294,5 +294,111 @@ verif_usize_as_f64(self.len())
 //@end
 }
 
+// ---- C20 as lemmas over the contracts proved above -----------------------------------------------------------------------
+// Two arrays are logically equal when they have the same shape, the same elements in logical order and the same index
+// patterns; everything else about them (strides, memory order, offset, ownership: what `as_slice_memory_order`,
+// `is_standard_layout` and the visiting order of Zip / fold reveal) may differ.  Each lemma takes the postcondition the
+// routine was verified against (`call_ensures` of the routine itself) for two such arrays and derives that the answers agree.
+pub open spec fn same_logical<A, D: Dimension>(a: &ArrayN<A, D>, b: &ArrayN<A, D>) -> bool {
+    a@ == b@ && a.shape_spec() == b.shape_spec()
+}
+pub open spec fn same_err(e1: MultiInputError, e2: MultiInputError) -> bool {
+    match (e1, e2) {
+        (MultiInputError::EmptyInput, MultiInputError::EmptyInput) => true,
+        (MultiInputError::ShapeMismatch(s1), MultiInputError::ShapeMismatch(s2)) => s1.first_shape@ == s2.first_shape@ && s1.second_shape@ == s2.second_shape@,
+        _ => false,
+    }
+}
+pub open spec fn same_answer<T>(r1: Result<T, MultiInputError>, r2: Result<T, MultiInputError>) -> bool {
+    match (r1, r2) { (Ok(v1), Ok(v2)) => v1 == v2, (Err(e1), Err(e2)) => same_err(e1, e2), _ => false }
+}
+proof fn lemma_layout_count_eq<A: PartialEq, D: Dimension>(a1: ArrayN<A, D>, a2: ArrayN<A, D>, b1: ArrayN<A, D>, b2: ArrayN<A, D>, r1: Result<usize, MultiInputError>, r2: Result<usize, MultiInputError>)
+    requires
+        A::obeys_eq_spec(), same_logical(&a1, &a2), same_logical(&b1, &b2),
+        call_ensures(ArrayN::<A, D>::count_eq, (&a1, &b1), r1), call_ensures(ArrayN::<A, D>::count_eq, (&a2, &b2), r2),
+    ensures same_answer(r1, r2), // [C20]
+{
+}
+proof fn lemma_layout_count_neq<A: PartialEq, D: Dimension>(a1: ArrayN<A, D>, a2: ArrayN<A, D>, b1: ArrayN<A, D>, b2: ArrayN<A, D>, r1: Result<usize, MultiInputError>, r2: Result<usize, MultiInputError>)
+    requires
+        same_logical(&a1, &a2), same_logical(&b1, &b2), A::obeys_eq_spec(),
+        call_ensures(ArrayN::<A, D>::count_neq, (&a1, &b1), r1), call_ensures(ArrayN::<A, D>::count_neq, (&a2, &b2), r2),
+    ensures same_answer(r1, r2), // [C20]
+{
+}
+proof fn lemma_layout_sq_l2_dist<A: AddAssign + Clone + Signed, D: Dimension>(a1: ArrayN<A, D>, a2: ArrayN<A, D>, b1: ArrayN<A, D>, b2: ArrayN<A, D>, r1: Result<A, MultiInputError>, r2: Result<A, MultiInputError>)
+    requires
+        same_logical(&a1, &a2), same_logical(&b1, &b2), vstd::seq_lib::commutative_foldl(sq_f::<A>()), // the order of summation is immaterial for the element type (integers; not floats)
+        call_ensures(ArrayN::<A, D>::sq_l2_dist, (&a1, &b1), r1), call_ensures(ArrayN::<A, D>::sq_l2_dist, (&a2, &b2), r2),
+    ensures same_answer(r1, r2), // [C20]
+{
+}
+proof fn lemma_layout_l1_dist<A: AddAssign + Clone + Signed, D: Dimension>(a1: ArrayN<A, D>, a2: ArrayN<A, D>, b1: ArrayN<A, D>, b2: ArrayN<A, D>, r1: Result<A, MultiInputError>, r2: Result<A, MultiInputError>)
+    requires
+        same_logical(&a1, &a2), same_logical(&b1, &b2), vstd::seq_lib::commutative_foldl(l1_f::<A>()),
+        call_ensures(ArrayN::<A, D>::l1_dist, (&a1, &b1), r1), call_ensures(ArrayN::<A, D>::l1_dist, (&a2, &b2), r2),
+    ensures same_answer(r1, r2), // [C20]
+{
+}
+proof fn lemma_layout_linf_dist<A: Clone + PartialOrd + Signed, D: Dimension>(a1: ArrayN<A, D>, a2: ArrayN<A, D>, b1: ArrayN<A, D>, b2: ArrayN<A, D>, r1: Result<A, MultiInputError>, r2: Result<A, MultiInputError>)
+    requires
+        same_logical(&a1, &a2), same_logical(&b1, &b2), vstd::seq_lib::commutative_foldl(linf_f::<A>()),
+        call_ensures(ArrayN::<A, D>::linf_dist, (&a1, &b1), r1), call_ensures(ArrayN::<A, D>::linf_dist, (&a2, &b2), r2),
+    ensures same_answer(r1, r2), // [C20]
+{
+}
+proof fn lemma_layout_l2_dist<A: AddAssign + Clone + Signed + ToPrimitive, D: Dimension>(a1: ArrayN<A, D>, a2: ArrayN<A, D>, b1: ArrayN<A, D>, b2: ArrayN<A, D>, r1: Result<f64, MultiInputError>, r2: Result<f64, MultiInputError>)
+    requires
+        same_logical(&a1, &a2), same_logical(&b1, &b2), vstd::seq_lib::commutative_foldl(sq_f::<A>()),
+        call_ensures(ArrayN::<A, D>::l2_dist, (&a1, &b1), r1), call_ensures(ArrayN::<A, D>::l2_dist, (&a2, &b2), r2),
+    ensures same_answer(r1, r2), // [C20]
+{
+    if r1 is Ok && r2 is Ok {
+        let p1 = choose|ps: Seq<(A, A)>| #[trigger] visits_all(ps, a1@, b1@) && r1->Ok_0 == f64_sqrt(ps.fold_left(A::zero_spec(), sq_f::<A>()).to_f64_spec()->Some_0);
+        let p2 = choose|ps: Seq<(A, A)>| #[trigger] visits_all(ps, a2@, b2@) && r2->Ok_0 == f64_sqrt(ps.fold_left(A::zero_spec(), sq_f::<A>()).to_f64_spec()->Some_0);
+        vstd::seq_lib::lemma_fold_left_permutation(p1, zip_seq(a1@, b1@), sq_f::<A>(), A::zero_spec());
+        vstd::seq_lib::lemma_fold_left_permutation(p2, zip_seq(a1@, b1@), sq_f::<A>(), A::zero_spec());
+    }
+}
+proof fn lemma_layout_mean_abs_err<A: AddAssign + Clone + Signed + ToPrimitive, D: Dimension>(a1: ArrayN<A, D>, a2: ArrayN<A, D>, b1: ArrayN<A, D>, b2: ArrayN<A, D>, r1: Result<f64, MultiInputError>, r2: Result<f64, MultiInputError>)
+    requires
+        same_logical(&a1, &a2), same_logical(&b1, &b2), vstd::seq_lib::commutative_foldl(l1_f::<A>()),
+        call_ensures(ArrayN::<A, D>::mean_abs_err, (&a1, &b1), r1), call_ensures(ArrayN::<A, D>::mean_abs_err, (&a2, &b2), r2),
+    ensures same_answer(r1, r2), // [C20]
+{
+    if r1 is Ok && r2 is Ok {
+        let p1 = choose|ps: Seq<(A, A)>| #[trigger] visits_all(ps, a1@, b1@) && r1->Ok_0 == f64_div(ps.fold_left(A::zero_spec(), l1_f::<A>()).to_f64_spec()->Some_0, usize_as_f64(a1@.len() as usize));
+        let p2 = choose|ps: Seq<(A, A)>| #[trigger] visits_all(ps, a2@, b2@) && r2->Ok_0 == f64_div(ps.fold_left(A::zero_spec(), l1_f::<A>()).to_f64_spec()->Some_0, usize_as_f64(a2@.len() as usize));
+        vstd::seq_lib::lemma_fold_left_permutation(p1, zip_seq(a1@, b1@), l1_f::<A>(), A::zero_spec());
+        vstd::seq_lib::lemma_fold_left_permutation(p2, zip_seq(a1@, b1@), l1_f::<A>(), A::zero_spec());
+    }
+}
+proof fn lemma_layout_mean_sq_err<A: AddAssign + Clone + Signed + ToPrimitive, D: Dimension>(a1: ArrayN<A, D>, a2: ArrayN<A, D>, b1: ArrayN<A, D>, b2: ArrayN<A, D>, r1: Result<f64, MultiInputError>, r2: Result<f64, MultiInputError>)
+    requires
+        same_logical(&a1, &a2), same_logical(&b1, &b2), vstd::seq_lib::commutative_foldl(sq_f::<A>()),
+        call_ensures(ArrayN::<A, D>::mean_sq_err, (&a1, &b1), r1), call_ensures(ArrayN::<A, D>::mean_sq_err, (&a2, &b2), r2),
+    ensures same_answer(r1, r2), // [C20]
+{
+    if r1 is Ok && r2 is Ok {
+        let p1 = choose|ps: Seq<(A, A)>| #[trigger] visits_all(ps, a1@, b1@) && r1->Ok_0 == f64_div(ps.fold_left(A::zero_spec(), sq_f::<A>()).to_f64_spec()->Some_0, usize_as_f64(a1@.len() as usize));
+        let p2 = choose|ps: Seq<(A, A)>| #[trigger] visits_all(ps, a2@, b2@) && r2->Ok_0 == f64_div(ps.fold_left(A::zero_spec(), sq_f::<A>()).to_f64_spec()->Some_0, usize_as_f64(a2@.len() as usize));
+        vstd::seq_lib::lemma_fold_left_permutation(p1, zip_seq(a1@, b1@), sq_f::<A>(), A::zero_spec());
+        vstd::seq_lib::lemma_fold_left_permutation(p2, zip_seq(a1@, b1@), sq_f::<A>(), A::zero_spec());
+    }
+}
+proof fn lemma_layout_root_mean_sq_err<A: AddAssign + Clone + Signed + ToPrimitive, D: Dimension>(a1: ArrayN<A, D>, a2: ArrayN<A, D>, b1: ArrayN<A, D>, b2: ArrayN<A, D>, r1: Result<f64, MultiInputError>, r2: Result<f64, MultiInputError>)
+    requires
+        same_logical(&a1, &a2), same_logical(&b1, &b2), vstd::seq_lib::commutative_foldl(sq_f::<A>()),
+        call_ensures(ArrayN::<A, D>::root_mean_sq_err, (&a1, &b1), r1), call_ensures(ArrayN::<A, D>::root_mean_sq_err, (&a2, &b2), r2),
+    ensures same_answer(r1, r2), // [C20]
+{
+    if r1 is Ok && r2 is Ok {
+        let p1 = choose|ps: Seq<(A, A)>| #[trigger] visits_all(ps, a1@, b1@) && r1->Ok_0 == f64_sqrt(f64_div(ps.fold_left(A::zero_spec(), sq_f::<A>()).to_f64_spec()->Some_0, usize_as_f64(a1@.len() as usize)));
+        let p2 = choose|ps: Seq<(A, A)>| #[trigger] visits_all(ps, a2@, b2@) && r2->Ok_0 == f64_sqrt(f64_div(ps.fold_left(A::zero_spec(), sq_f::<A>()).to_f64_spec()->Some_0, usize_as_f64(a2@.len() as usize)));
+        vstd::seq_lib::lemma_fold_left_permutation(p1, zip_seq(a1@, b1@), sq_f::<A>(), A::zero_spec());
+        vstd::seq_lib::lemma_fold_left_permutation(p2, zip_seq(a1@, b1@), sq_f::<A>(), A::zero_spec());
+    }
+}
+
 } // verus!
 fn main() {}
